@@ -114,7 +114,7 @@ Proof.
   intros p ops1 ops2 p1 p2 o H W F1 F2 R1 R2 O1 O2.
   pose proof (WfInv.run_wf_strong ops1 p p1 H W F1 R1) as W1.
   destruct (run_ok ops1 p H F1) as (q1 & E1 & K1). destruct (run_ok ops2 p H F2) as (q2 & E2 & K2).
-  rewrite R1 in E1. rewrite R2 in E2. inv E1. inv E2. unfold parser_ok in K1, K2.
+  rewrite R1 in E1. rewrite R2 in E2. inv E1. inv E2. apply parser_ok_scr in K1. apply parser_ok_scr in K2.
   destruct (ObsSpec.C19_factor _ _ o K1 K2 O1 O2) as (A1 & A2 & A3 & A4 & A5 & A6).
   destruct (C19_obsdiff _ _ o K1 W1 K2 O1 O2) as (B1 & B2 & B3 & B4).
   repeat apply conj; assumption.
